@@ -104,7 +104,7 @@ theorem readBytes_enc (st : St) : ∀ (l : List UInt8) (r : Bytes),
 
 theorem readF32_put (v : UInt32) (r : Bytes) : readF32 (f32le v ++ r) = some (v, r) := by
   simp only [f32le, putU32le, readF32, List.cons_append, List.nil_append]
-  congr 2; bv_decide
+  congr 2; bv_decide (timeout := 300)
 
 theorem readF32s_put : ∀ (v : List UInt32) (r : Bytes),
     readF32s v.length ((v.map f32le).flatten ++ r) = some (v, r) := by
